@@ -19,6 +19,7 @@ rotates it with `rot` and answers with the result of the rotated scene (in the r
 compares that with the real code run on the scene that was rebuilt in the rotated orientation through the public API.
 -/
 import FdtdxModel.YeeIO
+import FdtdxModel.Cpml
 namespace Fdtdx.C08
 open Fdtdx.Yee
 
@@ -90,8 +91,58 @@ def handleRot (op : String) (rest : List String) : String :=
 
 end
 
-/-- ops: `fwd | bwd | curlE | curlH` (YeeIO) and `rotfwd | rotbwd | rotpoynting`, then kind `r | c`, then the request -/
+/-! ### CPML layers (`FdtdxModel/Cpml.lean`): index boxes, static PML data, psi arrays -/
+open Fdtdx.Cpml in
+/-- relabelled index box (`grid_slice_tuple`): what was the extent along axis a is the extent along axis a+1 -/
+def rotBox (b : Cpml.Box) : Cpml.Box := ⟨b.lo2, b.hi2, b.lo0, b.hi0, b.lo1, b.hi1⟩
+
+/-- relabelled PML: the axis moves on; direction, kappa flag and the six coefficient arrays (indexed by the offset along
+the PML's own axis) are unchanged -/
+def rotP {α : Type} (p : Cpml.Pml α) : Cpml.Pml α := { p with axis := (p.axis + 1) % 3, box := rotBox p.box }
+
+/-- relabelled PML with its auxiliary fields -/
+def rotSt {α : Type} (s : Cpml.PmlSt α) : Cpml.PmlSt α := ⟨rotP s.p, rotF s.e1, rotF s.e2, rotF s.h1, rotF s.h2⟩
+
+/-- `rotpmlfwd sim <pmls> <yee request>`: the request (orientation r) is relabelled in Lean — scene, materials, sources,
+fields and every PML — and one `forwardP` step of the relabelled scene is returned in the relabelled layout:
+E H, then (e1 e2 h1 h2) of every PML in request order, each over its relabelled box -/
+def opRotPmlFwd : YeeIO.P String := do
+  let sim ← YeeIO.pBool
+  let pmls ← Cpml.pPmls
+  let r ← YeeIO.pReq (α := Float)
+  let r' := rotReq r
+  let mat (V : V3 Float) := materialize r'.cf.nx r'.cf.ny r'.cf.nz V
+  let (jE, jH) := (r'.src.map (fun p => (mat p.1, mat p.2))).getD (YeeIO.zeroV, YeeIO.zeroV)
+  let m' : Mat Float := ⟨mat r'.m.invEps, mat r'.m.invMu, r'.m.sigE.map mat, r'.m.sigH.map mat⟩
+  let pm' := pmls.map fun st =>
+    let s := rotSt st
+    let tb (f : F3 Float) : F3 Float := Cpml.boxF3 s.p.box (Cpml.tabBox s.p.box f)
+    ({ s with e1 := tb s.e1, e2 := tb s.e2, h1 := tb s.h1, h2 := tb s.h2 } : Cpml.PmlSt Float)
+  let (E', H', pm) := Cpml.forwardP r'.cf m' jE jH sim pm' (mat r'.E) (mat r'.H)
+  pure (Proto.joinSp (Cpml.emitV r' E' ++ Cpml.emitV r' H'
+    ++ Cpml.emitPsi (fun st => [st.e1, st.e2, st.h1, st.h2]) pm))
+
+/-- `fdtdx.core.axis.get_oriented_transverse_axes(axis)` followed by the axis itself: the right-handed
+(horizontal, vertical, propagation) triple used by plane sources, dipoles and `tilted_polarization_vectors` -/
+def hvp (axis : Nat) : Nat × Nat × Nat := ((axis + 1) % 3, (axis + 2) % 3, axis)
+
+/-- `fdtdx.core.axis.get_transverse_axes(axis)`: the two other axes in ascending order (NOT equivariant) -/
+def ascendingAxes (axis : Nat) : Nat × Nat :=
+  match axis with
+  | 0 => (1, 2)
+  | 1 => (0, 2)
+  | _ => (0, 1)
+
+/-- ops: `fwd | bwd | curlE | curlH` (YeeIO) and `rotfwd | rotbwd | rotpoynting`, then kind `r | c`, then the request;
+`hvp a`, `ascending a` for a = 0, 1, 2 -/
 def handle : List String → String
+  | "rotpmlfwd" :: rest => Cpml.runOp opRotPmlFwd rest
+  | ["hvp", a] => match Proto.parseNat a with
+    | some n => if n > 2 then "bad-op" else Proto.showNats [(hvp n).1, (hvp n).2.1, (hvp n).2.2]
+    | none => "bad-op"
+  | ["ascending", a] => match Proto.parseNat a with
+    | some n => if n > 2 then "bad-op" else Proto.showNats [(ascendingAxes n).1, (ascendingAxes n).2]
+    | none => "bad-op"
   | "rotfwd" :: "r" :: rest => handleRot (α := Float) "rotfwd" rest
   | "rotbwd" :: "r" :: rest => handleRot (α := Float) "rotbwd" rest
   | "rotpoynting" :: "r" :: rest => handleRot (α := Float) "rotpoynting" rest
